@@ -236,6 +236,16 @@ impl Rp62_248 {
     /// Verification hook: the (otherwise private) MDS matrix of this hash function.
     pub const VERIF_MDS: [[BaseElement; STATE_WIDTH]; STATE_WIDTH] = MDS;
 
+    /// Verification hook: round constants.
+    pub fn verif_ark1() -> alloc::vec::Vec<[BaseElement; STATE_WIDTH]> {
+        ARK1.to_vec()
+    }
+
+    /// Verification hook: round constants.
+    pub fn verif_ark2() -> alloc::vec::Vec<[BaseElement; STATE_WIDTH]> {
+        ARK2.to_vec()
+    }
+
     /// Verification hook: applies one round of the permutation to the state.
     pub fn verif_apply_round(state: &mut [BaseElement; STATE_WIDTH], round: usize) {
         apply_round(state, round)
